@@ -15,20 +15,27 @@ class Path:
         self.binds = {}      # name -> the let statement (or pattern owner) that bound it last on this path
         self.exit = None     # value expression the body evaluates to / returns
         self.kind = None     # 'tail' | 'return'
+        self.calls = []      # call / method-call nodes of the statements executed on this path, in order
 
     def copy(self):
         p = Path()
         p.conds = list(self.conds)
         p.binds = dict(self.binds)
+        p.calls = list(self.calls)
         return p
 
 
 MAX_PATHS = 400
 
 
-def enumerate_paths(body):
-    """body: a block node.  -> [Path]"""
+def enumerate_paths(body, loops=False):
+    """body: a block node.  -> [Path].  With loops=True a loop is explored as "body zero times or once" (enough for must-pass-through
+    questions about what lies outside the loop); `continue` / `break` end the loop body."""
     out = []
+
+    def note(p, e):
+        if isinstance(e, dict):
+            p.calls += [n for n in sx.walk(e) if n.get('k') in ('call', 'mcall')]
 
     def bind_pat(p, pat, owner):
         for n in sx.pat_idents(pat):
@@ -42,6 +49,7 @@ def enumerate_paths(body):
             block(e['stmts'], p, kind, cont)
         elif k == 'if':
             c = e['c']
+            note(p, c.get('e') if c.get('k') == 'let' else c)
             pt, pe = p.copy(), p.copy()
             if c.get('k') == 'let':
                 pt.conds.append((c, True))
@@ -56,6 +64,7 @@ def enumerate_paths(body):
             else:
                 cont(pe, {'k': 'tuple', 'e': []})
         elif k == 'match':
+            note(p, e['e'])
             for arm in e['arms']:
                 pa = p.copy()
                 pa.conds.append(({'k': 'arm', 'scrutinee': e['e'], 'pat': arm['pat'], 'guard': arm.get('guard')}, True))
@@ -68,8 +77,19 @@ def enumerate_paths(body):
             else:
                 finish(q, {'k': 'tuple', 'e': []}, 'return')
         elif k in ('while', 'for', 'loop'):
-            raise Unmodelled('loop')
+            if not loops:
+                raise Unmodelled('loop')
+            note(p, e.get('e') or e.get('c'))
+            skip_ = p.copy()
+            cont(skip_, {'k': 'tuple', 'e': []})                 # zero iterations
+            once = p.copy()
+            if k == 'for':
+                bind_pat(once, e['pat'], e)
+            value(e['body'], once, kind, lambda pp, ee: cont(pp, {'k': 'tuple', 'e': []}))
+        elif k in ('continue', 'break'):
+            cont(p, {'k': 'tuple', 'e': []})
         else:
+            note(p, e)
             cont(p, e)
 
     def finish(p, e, kind):
@@ -98,6 +118,7 @@ def enumerate_paths(body):
                         raise Unmodelled('loop')
                     if n.get('k') == 'return':
                         raise Unmodelled('return inside an initialiser')
+                note(p, st['init'])
             bind_pat(p, st['pat'], st)
             block(rest, p, kind, cont)
             return
@@ -107,7 +128,10 @@ def enumerate_paths(body):
             if last and not st.get('semi'):
                 value(e, p, kind, cont)
                 return
-            if e.get('k') in ('if', 'match', 'block', 'return'):
+            if e.get('k') in ('if', 'match', 'block', 'return') or (loops and e.get('k') in ('while', 'for', 'loop', 'continue', 'break')):
+                if e.get('k') in ('continue', 'break'):
+                    cont(p, {'k': 'tuple', 'e': []})
+                    return
                 value(e, p, kind, lambda pp, ee, rest=rest: block(rest, pp, kind, cont))
                 return
             if e.get('k') in ('while', 'for', 'loop'):
@@ -117,6 +141,7 @@ def enumerate_paths(body):
                     raise Unmodelled('return inside an expression')
             if e.get('k') == 'assign' and sx.is_path(e['l_']):
                 p.binds[e['l_']['p']] = st
+            note(p, e)
             block(rest, p, kind, cont)
             return
         if st['k'] in ('macro', 'item', 'fn', 'use'):
@@ -126,3 +151,91 @@ def enumerate_paths(body):
 
     block(body['stmts'], Path(), 'tail', lambda pp, ee: finish(pp, ee, 'tail'))
     return out
+
+
+def exits_avoiding(body, is_target):
+    """Must-pass-through without path enumeration: the value expressions with which control can leave `body` (tail value or
+    `return`) along SOME path that evaluates no node for which is_target(node) holds.  Linear in the size of the body; loops are
+    "zero or more times"; `?` error exits are not value exits and are ignored."""
+    exits = []
+
+    def has_target(e):
+        return isinstance(e, (dict, list)) and any(is_target(n) for n in sx.walk(e))
+
+    def expr(e, alive, tail):
+        """evaluate e with `alive` = reachable without target; returns alive after e; if tail, e's value leaves the body"""
+        if not isinstance(e, dict):
+            return alive
+        k = e.get('k')
+        if k == 'block':
+            return block(e['stmts'], alive, tail)
+        if k == 'if':
+            c = e['c']
+            a0 = alive and not has_target(c.get('e') if c.get('k') == 'let' else c)
+            at = expr(e['t'], a0, tail)
+            if 'e' in e:
+                ae = expr(e['e'], a0, tail)
+            else:
+                ae = a0
+                if tail and a0:
+                    exits.append({'k': 'tuple', 'e': [], 'l': e.get('l')})
+            return at or ae
+        if k == 'match':
+            a0 = alive and not has_target(e['e'])
+            res = False
+            for arm in e['arms']:
+                a1 = a0 and not has_target(arm.get('guard'))
+                res = expr(arm['body'], a1, tail) or res
+            return res
+        if k == 'return':
+            if 'e' in e:
+                a1 = alive and not has_target(e['e'])
+                if a1:
+                    collect(e['e'])
+            elif alive:
+                exits.append({'k': 'tuple', 'e': [], 'l': e.get('l')})
+            return False
+        if k in ('for', 'while', 'loop'):
+            a0 = alive and not has_target(e.get('e') or e.get('c'))
+            ab = expr(e['body'], a0, False)
+            return a0 or ab
+        if k in ('continue', 'break'):
+            return alive
+        # plain expression
+        a1 = alive and not has_target(e)
+        # returns hidden inside (e.g. in a closure-free expression) are rare: treat a nested `return` conservatively
+        for n in sx.walk(e):
+            if n is not e and n.get('k') == 'return' and alive:
+                collect(n.get('e') or {'k': 'tuple', 'e': []})
+        if tail and a1:
+            exits.append(e)
+        return a1
+
+    def collect(e):
+        """value of a `return e` / tail: split over if/match so that each leaf expression is reported"""
+        if isinstance(e, dict) and e.get('k') in ('if', 'match', 'block'):
+            expr(e, True, True)
+        else:
+            exits.append(e)
+
+    def block(stmts, alive, tail):
+        for i, st in enumerate(stmts):
+            last = i == len(stmts) - 1
+            if st['k'] == 'let':
+                if 'init' in st:
+                    init = st['init']
+                    if init.get('k') in ('if', 'match', 'block'):
+                        alive = expr(init, alive, False)
+                    else:
+                        alive = expr(init, alive, False)
+                continue
+            if st['k'] == 'expr':
+                is_tail = tail and last and not st.get('semi')
+                alive = expr(st['e'], alive, is_tail)
+                continue
+        if tail and alive and (not stmts or stmts[-1]['k'] != 'expr' or stmts[-1].get('semi')):
+            exits.append({'k': 'tuple', 'e': []})
+        return alive
+
+    block(body['stmts'], True, True)
+    return exits
